@@ -17,4 +17,5 @@ def run(ctx, rep):
     recursion.rule_guard_passed_along(ctx, rep, "C19-R4c", only_pred=in_json)
     builtins.rule_json_omission(ctx, rep, "C19-R5")
     operators.rule_key_not_truth_tested(ctx, rep, "C19-R6", only=lambda q: "_create_json_object" in q or "_json" in q)
+    operators.rule_json_integer_tokens(ctx, rep, "C19-R7")
     rep.undecided += ["parse(stringify(v)) structurally equal to v for all values, canonical form of stringify(parse(t)) (round-trip properties)"]
